@@ -122,3 +122,55 @@ Proof.
     apply all_allows_iff; [exact WF'|lia|]. exists anc, e. split; [apply encloses_set_allows; exact Henc|]. split; auto.
     rewrite nth_set_allows, Hne'. destruct (Nat.eqb_spec anc id) as [->|]; [contradiction|reflexivity].
 Qed.
+
+(* ---------- the element concerned ---------- *)
+Lemma find_some_child es ps id s j : find (is_child_at es ps id s) (seq 0 (length es)) = Some j -> parent_of es j = Some id /\ j < length es.
+Proof.
+  intros H. apply find_some in H as [Hin H]. apply in_seq in Hin. split; [|lia]. unfold is_child_at in H.
+  destruct (parent_of es j) as [p|]; [|discriminate]. destruct (span_of_ent ps j); [|discriminate]. apply andb_true_iff in H as [H _]. apply Nat.eqb_eq in H. congruence.
+Qed.
+Lemma encloses_trans es a b c : encloses es a b -> encloses es b c -> encloses es a c.
+Proof. intros Hab Hbc. induction Hbc as [id|id e p b' Hn Hp Hb IH]; [exact Hab|]. eapply enc_parent; eauto. Qed.
+(* going inwards stays below the element the lint was scoped to: every definition enclosing that element encloses the one found *)
+Lemma descend_below es ps : forall fuel id s, encloses es id (descend fuel es ps id s).
+Proof.
+  induction fuel as [|f IH]; intros id s; cbn [descend]; [constructor|].
+  destruct (find (is_child_at es ps id s) (seq 0 (length es))) as [j|] eqn:E; [|constructor].
+  apply find_some_child in E as [Hp Hj]. eapply encloses_trans; [|apply IH]. unfold parent_of in Hp. destruct (nth_error es j) as [e|] eqn:En; [|discriminate].
+  eapply enc_parent; [exact En|exact Hp|constructor].
+Qed.
+Lemma descend_in_range es ps : forall fuel id s, id < length es -> descend fuel es ps id s < length es.
+Proof.
+  induction fuel as [|f IH]; intros id s H; cbn [descend]; [exact H|].
+  destruct (find (is_child_at es ps id s) (seq 0 (length es))) as [j|] eqn:E; [|exact H]. apply IH. apply find_some_child in E. tauto.
+Qed.
+(* so a suppression that reaches the scoped element still reaches the element concerned: looking closer never un-silences a lint
+   (the one exception is by design: a parameter that does not contain the lint gives way to its operation) *)
+Theorem closer_look_keeps_suppressions es ps id s code : wf_ents es -> id < length es ->
+  allowed_by (all_allows (S (length es)) es id) code = true -> allowed_by (all_allows (S (length es)) es (descend (S (length es)) es ps id s)) code = true.
+Proof.
+  intros WF Hid H. apply allowed_by_iff in H as (a & Ha & Hn). apply allowed_by_iff. exists a. split; [|exact Hn].
+  apply all_allows_iff in Ha as (anc & e & Henc & Hne & Hin); [|exact WF|lia].
+  apply all_allows_iff; [exact WF|pose proof (descend_in_range es ps (S (length es)) id s Hid); lia|].
+  exists anc, e. split; [|split; assumption]. eapply encloses_trans; [exact Henc|apply descend_below].
+Qed.
+(* the element concerned is the scoped element, or lies below it, or below the operation of a parameter that does not contain the lint *)
+Theorem concerned_is_below es ps scope s :
+  encloses es scope (concerned es ps scope s) \/
+  (exists pl p, nth_error ps scope = Some pl /\ lp_param pl = true /\ within s (lp_span pl) = false /\ parent_of es scope = Some p /\ encloses es p (concerned es ps scope s)).
+Proof.
+  unfold concerned. destruct (nth_error ps scope) as [pl|] eqn:Ep; [|left; apply descend_below].
+  destruct (parent_of es scope) as [p|] eqn:Epar; [|left; apply descend_below].
+  destruct (lp_param pl && negb (within s (lp_span pl))) eqn:E; [|left; apply descend_below].
+  apply andb_true_iff in E as [E1 E2]. apply negb_true_iff in E2. right. exists pl, p. repeat split; try assumption. apply descend_below.
+Qed.
+(* the two defects this rule repairs, as instances: op([allow(Deprecated)] p: Old) -> (p: bool, q: bool) -- the table answers
+   "M::I::op::p" with the return member (entity 3); the lint lies in the parameter (entity 2), whose allow must count ... *)
+Example twin_parameter :
+  let es := [{| ent_allows := []; ent_parent := None |}; {| ent_allows := []; ent_parent := Some 0 |};
+             {| ent_allows := [[68]%N]; ent_parent := Some 1 |}; {| ent_allows := []; ent_parent := Some 1 |}; {| ent_allows := []; ent_parent := Some 1 |}] in
+  let sp a b c d := {| ls_lo := (a, b); ls_hi := (c, d) |} in
+  let ps := [{| lp_span := sp 3 1 5 2; lp_param := false; lp_file := 0; lp_under := None |}; {| lp_span := sp 4 5 4 60; lp_param := false; lp_file := 0; lp_under := None |};
+             {| lp_span := sp 4 31 4 37; lp_param := true; lp_file := 0; lp_under := None |}; {| lp_span := sp 4 43 4 50; lp_param := true; lp_file := 0; lp_under := None |}; {| lp_span := sp 4 52 4 59; lp_param := true; lp_file := 0; lp_under := None |}] in
+  concerned es ps 3 (sp 4 34 4 37) = 2 /\ concerned es ps 3 (sp 4 46 4 50) = 3 /\ concerned es ps 1 (sp 4 34 4 37) = 2.
+Proof. vm_compute. repeat split. Qed.
